@@ -110,6 +110,7 @@ fn real_main() {
                 "shared_header" => families::Family::SharedHeader,
                 "jbig_cycle" => families::Family::JbigCycle,
                 "long_parents" => families::Family::LongParents,
+                "icc_cycle" => families::Family::IccCycle,
                 _ => families::Family::Rich,
             };
             let mut pool = docs::Pool::new(&repo, env_seed());
